@@ -219,6 +219,12 @@ class Run:
             for kk, v in j.items():
                 if isinstance(v, int) and kk != "shard":
                     tot[kk] = tot.get(kk, 0) + v
+            for dm in re.finditer(r'"((?:RENDER|MODEL)-DRIFT) (.*)"', out):
+                if len(tot.setdefault("drift_examples", [])) < 5:
+                    try:
+                        tot["drift_examples"].append(json.loads(json.loads('"' + dm.group(2) + '"')))
+                    except ValueError:
+                        tot["drift_examples"].append(dm.group(2)[:300])
             g2, d2 = self.tlc_stats(out)
             gen += g2
             dist += d2
